@@ -86,7 +86,7 @@ CHECKS = {
     ),
     "C20": dict(
         level="fault_enumeration",
-        text="Three build profiles of the simulator (plain release; release with overflow checks and debug assertions; dev) execute the same seeds. (1) misuse: the complete catalogue of invalid calls (45 entry-point families, 467 (entry, argument) pairs) is enumerated in every run, each call injected after a random valid history of the object concerned; every call must panic or return Err, none may return a value; its mirror image `validedge` (58 calls exactly on the legal side of the documented limits, e.g. ScryptParams::new with the largest legal p for 24 values of r) must return normally in every profile. (2) ctrwrap / lenwrap: BLAKE2 byte counters (hook H1) preset next to 2^32 / 2^64 and SHA-1/SHA-2/RIPEMD-160 message-length counters (hook H4) preset next to 2^29..2^93 bytes, then a fragmented history across the boundary: no panic, counter getter invariant after every op, digest equal to the one-call digest under the same preset. (3) every other scenario's valid operations (hash contexts, stream ciphers incl. counter jumps next to 2^32-1, DRG, Poly1305, AEAD, HMAC, lifecycle, Ed25519, X25519, curve programs, KDFs): any panic on a valid operation in any profile is a violation, and the transcripts of the checked and dev builds must equal the plain release one. The public constant-time helper API is run the same way (scenario ctprobe: structured operand pairs, no value oracle - that would be C18). Thorough tier adds a Miri run (bounds, alignment, initialisation) of ~90 seeded histories.",
+        text="Three build profiles of the simulator (plain release; release with overflow checks and debug assertions; dev) execute the same seeds. (1) misuse: the complete catalogue of invalid calls (45 entry-point families, 467 (entry, argument) pairs) is enumerated in every run, each call injected after a random valid history of the object concerned; every call must panic or return Err, none may return a value; its mirror image `validedge` (58 calls exactly on the legal side of the documented limits, e.g. ScryptParams::new with the largest legal p for 24 values of r) must return normally in every profile. (2) ctrwrap / lenwrap: BLAKE2 byte counters (hook H1) preset next to 2^32 / 2^64 and SHA-1/SHA-2/RIPEMD-160 message-length counters (hook H4) preset next to 2^29..2^93 bytes, then a fragmented history across the boundary: no panic, counter getter invariant after every op, digest equal to the one-call digest under the same preset. (3) every other scenario's valid operations (hash contexts, stream ciphers incl. counter jumps next to 2^32-1, DRG, Poly1305, AEAD, HMAC, lifecycle, Ed25519, X25519, curve programs, KDFs): any panic on a valid operation in any profile is a violation, and the transcripts of the checked and dev builds must equal the plain release one. The public constant-time helper API is run the same way (scenario ctprobe: structured operand pairs, no value oracle - that would be C18). Thorough tier adds a Miri run (bounds, alignment, initialisation) of ~100 seeded histories (sources, destinations and in-place buffers at independent misalignments).",
         ref="DESIGN.md §4.12",
         note="The catalogue is enumerated completely (fault_enumeration); histories are sampled. A panic is observed through catch_unwind; an abort, fault or endless loop kills or stalls the simulator process: the driver localises the run (bisection over run ranges, or the simulator's watchdog for a hang), shortens its trace and reports it with a replay file (kind 'crashed'). Hash length counters are preset through hook H4 (scenario lenwrap). Miri runs with -Zmiri-disable-stacked-borrows (see DESIGN.md).",
         technique="deterministic simulation with fault injection replayed across build profiles: enumerated misuse catalogue inside seeded valid histories, counter-preset clock jumps, transcript equality across 3 profiles",
